@@ -201,16 +201,16 @@ Qed.
 Lemma gR d : tgood env retr ntxt (S (S d)) (TRef (L"env:R")) /\ tgood env retr ntxt (S (S d)) (TRef (L"R")).
 Proof.
   split; cbn [tgood];
-    (change (ntxt _) with [TChar "<"%char; TRef (L"env:A"); TChar ">"%char]; split; [|split];
-     [wf_tac | reflexivity | repeat constructor; apply gA]).
+    (match goal with |- context [ntxt ?x] => let t := eval vm_compute in (ntxt x) in change (ntxt x) with t end;
+     split; [|split]; [wf_tac | reflexivity | repeat (apply Forall_cons; [first [exact I | apply gA]|]); apply Forall_nil]).
 Qed.
 Lemma gS d : tgood env retr ntxt (S (S (S d))) (TRef (L"env:S")).
 Proof.
-  cbn [tgood]. change (ntxt (L"env:S")) with [TChar "["%char; TRef (L"env:R"); TEsc; TRef (L"R"); TChar "]"%char].
-  split; [|split]; [wf_tac | reflexivity | repeat constructor; apply gR].
+  cbn [tgood]. match goal with |- context [ntxt ?x] => let t := eval vm_compute in (ntxt x) in change (ntxt x) with t end.
+  split; [|split]; [wf_tac | reflexivity | repeat (apply Forall_cons; [first [exact I | apply gR]|]); apply Forall_nil].
 Qed.
 Example ex_deep_good : good env retr ntxt 3 ex_deep.
-Proof. unfold good, ex_deep. repeat constructor; first [apply gS | apply (gA 2)]. Qed.
+Proof. unfold good, ex_deep. repeat (apply Forall_cons; [first [exact I | apply gS | apply (gA 2)]|]). apply Forall_nil. Qed.
 Example ex_deep_cost : cost ntxt 3 ex_deep = 11.
 Proof. vm_compute. reflexivity. Qed.
 Example ex_deep_text : flatten ex_deep = L"x${env:S}$.${env:A}${env:S}".
